@@ -62,9 +62,12 @@ type Ev struct {
 	MaskAtDelivery       uint32
 	MaskOK               bool
 	TargetAtDelivery     ecs.Entity
-	ChaosEscaped         bool // a structural call inside a removal notification did not panic
-	UnlockedAfterNested  bool // the notification opened and closed as many nested queries as the world allowed and found the world unlocked
-	Foreign              bool // event mentions an ID that is not a live type
+	ChaosEscaped         bool   // a structural call inside a removal notification did not panic
+	UnlockedAfterNested  bool   // the notification opened and closed as many nested queries as the world allowed and found the world unlocked
+	Foreign              bool   // event mentions an ID that is not a live type
+	ValT                 int    // live type whose value the listener read (and then overwrote) at delivery, -1 = none
+	ValAtDelivery        []byte // what it read
+	Wrote                []byte // what it wrote through the Get pointer (legal: the world is unlocked)
 }
 
 // Sys wraps one real world with everything that belongs to it.
@@ -335,6 +338,41 @@ func (l *recListener) Notify(w *ecs.World, e ecs.EntityEvent) {
 			}
 		}
 	}()
+	ev.ValT = -1
+	if l.sink < 0 && !e.Contains(event.EntityRemoved) && ev.AliveAtDelivery && !ev.Locked {
+		// a listener that looks at the new state of the entity and changes a value: the event comes after the change, so
+		// it sees the values the operation gave, and what it writes stays
+		for k := 0; k < len(s.Reg); k++ {
+			t := (k + int(e.Entity.ID())) % len(s.Reg)
+			if !s.Reg[t] || ev.MaskAtDelivery&(1<<uint(t)) == 0 {
+				continue
+			}
+			switch s.specs[t].Kind {
+			case "bytes", "aligned", "padded", "array", "rel", "rellater", "relnamed":
+			default:
+				continue
+			}
+			n := int(s.Types[t].Size())
+			if n == 0 || n > 64 {
+				continue
+			}
+			func() {
+				defer func() { recover() }()
+				p := w.Get(e.Entity, s.IDs[t])
+				if p == nil {
+					return
+				}
+				ev.ValAtDelivery = readBytes(p, n)
+				b := make([]byte, n)
+				for i := range b {
+					b[i] = byte(0xA5 ^ int(e.Entity.ID())*31 ^ int(e.Entity.Generation())*7 ^ t*13 ^ i*3 ^ int(ev.Types))
+				}
+				writeBytes(p, b)
+				ev.ValT, ev.Wrote = t, b
+			}()
+			break
+		}
+	}
 	if l.sink < 0 && s.chaos && e.Contains(event.EntityRemoved) {
 		// a listener that opens as many queries as the world lets it and closes them again: the removal's own lock
 		// must survive that
